@@ -8,3 +8,6 @@ chk("C13", "runtime monitoring: brute-force interval oracle over insertion histo
 chk("C09", "runtime monitoring: print/parse round-trip oracle with an independent structural comparison",
     "Generated constants, atoms, type expressions and clause syntax trees are printed with String(), parsed back by the real parser and compared by a structural walk that uses neither Equals, Hash nor String of the library (constants by canonical encoding after EvalExpr). Held on the terms executed.",
     "Trusts functional.EvalExpr for turning constructor expressions into constants (checked separately by C07) and the harness's comparison walk.")
+chk("C08", "runtime monitoring: relational oracle (equivalence, hash and print agreement) over related term tuples",
+    "Pairs/triples of related constants and atoms (rebuilt copies, one-leaf mutations, cross-kind twins, permuted map entries incl. hash-equal keys) are checked for reflexivity, symmetry, transitivity, Equals=>same Hash and String, same String=>Equals, and agreement of Equals with an independent canonical encoding. Held on the tuples executed.",
+    "Domain restricted to finite floats and lexer-valid names as the property states; canonical encoding is the structural ground truth.")
